@@ -18,7 +18,10 @@ for n in sorted(os.listdir(os.path.join(ROOT, "seeded"))):
         by = mt.group(1) if mt else ("crash marker" if "crashed the whole process" in first else (first.split(":")[0][:40] if first else ""))
         res.append("%s: %s%s" % (k.split("@")[0], v["result"].replace("caught:with-failing-input", "failing input").replace("caught:no-failing-input-found", "broken tie only"), (" (" + by + ")") if by else ""))
     conf = m.get("confirmation", {}).get("confirmed")
-    rows.append("| %s | %s | %s | %s |" % (n, summ.replace("|", "/"), "yes" if conf else "no", "; ".join(res) or "not run"))
+    note = re.sub(r"\s+", " ", m.get("note", "")).strip()
+    if note:
+        summ += " — NOTE: " + note.replace("|", "/")
+    rows.append("| %s | %s | %s | %s |" % (n, summ.replace("|", "/"), "yes" if conf else "no longer (see note)", "; ".join(res) or "not run"))
 table = "| change | what it does | confirmed | caught by |\n|---|---|---|---|\n" + "\n".join(rows)
 p = os.path.join(ROOT, "DESIGN.md")
 s = open(p).read()
